@@ -158,6 +158,30 @@ impl Hash for LintGroupConfig {
     }
 }
 
+/// Verification hook: per-thread counters of chunk-cache hits and misses.
+#[cfg(harper_verif)]
+pub mod verif {
+    use std::cell::Cell;
+
+    thread_local! {
+        static HITS: Cell<u64> = const { Cell::new(0) };
+        static MISSES: Cell<u64> = const { Cell::new(0) };
+    }
+
+    pub(super) fn record(hit: bool) {
+        if hit {
+            HITS.with(|c| c.set(c.get() + 1));
+        } else {
+            MISSES.with(|c| c.set(c.get() + 1));
+        }
+    }
+
+    /// (hits, misses) on the current thread since the process started.
+    pub fn counters() -> (u64, u64) {
+        (HITS.with(|c| c.get()), MISSES.with(|c| c.get()))
+    }
+}
+
 pub struct LintGroup {
     pub config: LintGroupConfig,
     /// We use a binary map here so the ordering is stable.
@@ -409,8 +433,12 @@ impl Linter for LintGroup {
             let key = (chunk_chars.into(), config_hash);
 
             let mut chunk_results = if let Some(hit) = self.chunk_pattern_cache.get(&key) {
+                #[cfg(harper_verif)]
+                verif::record(true);
                 hit.clone()
             } else {
+                #[cfg(harper_verif)]
+                verif::record(false);
                 let mut pattern_lints = Vec::new();
 
                 for (key, linter) in &mut self.pattern_linters {
